@@ -393,6 +393,16 @@ pub fn c15(out: &mut Out, rng0: &mut Rng, tier: &Tier) {
                     dstr_v(&owned),
                 ]),
             );
+            {
+                // the owned copy is the same VALUE as the string built from the view's bases (derived ==, Hash, Ord
+                // and the word-wise ndiffs see padding bits that get() does not)
+                let reference = DnaString::from_bytes(&s.bytes());
+                let same = owned == reference
+                    && owned.cmp(&reference) == std::cmp::Ordering::Equal
+                    && feed(&owned) == feed(&reference)
+                    && guard(|| debruijn::dna_string::ndiffs(&owned, &reference)) == Some(0);
+                out.case("s.sl.owned_eq", l(vec![dna(&bs), opsv()]), b(same));
+            }
             c15_kmers::<debruijn::kmer::Kmer5>(out, &mut rng, &d, &bs, &ops, &s);
             c15_kmers::<debruijn::kmer::Kmer16>(out, &mut rng, &d, &bs, &ops, &s);
             c15_kmers::<debruijn::kmer::Kmer32>(out, &mut rng, &d, &bs, &ops, &s);
